@@ -25,7 +25,7 @@ GUESTS = [("c01", 0.1), ("c02", 0.05), ("c07", 0.1), ("c08", 0.1), ("c09", 0.1),
           ("c17", 0.1), ("c18", 0.1)]
 PUBLIC = ['units', 'long_name', 'foo', 'standard_name', 'Bar9', 'x_y', 'name2', 'description']
 UNDER = ['_private', '__dunder', '_', '_values2', '_FillValue']
-CLASSES = ['DimArray', 'Dataset', 'Axis']
+CLASSES = ['DimArray', 'Dataset', 'Axis', 'GroupedAxis']
 
 
 def shards(tier, seed, scale=1.0):
@@ -51,7 +51,7 @@ def cases(desc):
         for i in range(desc["n"]):
             cls = rng.choice(CLASSES)
             nk = rng.choice(['public', 'public', 'underscore', 'member', 'member', 'dim'])
-            if cls == 'Axis' and nk == 'dim':
+            if cls in ('Axis', 'GroupedAxis') and nk == 'dim':
                 nk = 'public'
             vt, v = values_pool(rng)
             yield {"block": "routing", "cls": cls, "namekind": nk, "vtype": vt, "value": v, "pick": rng.randrange(10 ** 6),
@@ -72,6 +72,9 @@ def make_obj(cls, sp):
         ds['v'] = a
         ds['w'] = a.take(0, axis=0, indexing='position') if a.ndim > 1 else a * 2
         return ds, list(ds.dims)
+    if cls == 'GroupedAxis' and a.ndim >= 2:
+        # the axis of a flattened array (a subclass of Axis with members of its own)
+        return a.flatten().axes[0], []
     return a.axes[0], []
 
 
@@ -83,7 +86,7 @@ def set_keywords(case, ctx, rng):
     """Axis.set / DimArray.set_axis / Dataset.set_axis store their extra key-words with setattr: a public name enters the axis' attrs,
     a class member (tol) is set as such and stays out of attrs"""
     da = __import__("vp.boot", fromlist=["boot"]).boot()
-    cls = case["cls"]
+    cls = 'Axis' if case["cls"] == 'GroupedAxis' else case["cls"]
     o, dims = make_obj('DimArray' if cls == 'Axis' else cls, case["a"])
     d = rng.choice(dims)
     by = rng.choice(['name', 'pos'])
@@ -120,15 +123,36 @@ def routing(case, ctx):
     o, dims = make_obj(cls, case["a"])
     C = type(o)
     members = sorted(n for n in dir(C) if not n.startswith('_'))
+    formerdim = None
+    if dims and cls in ('DimArray', 'Dataset') and case["pick"] % 3 == 0:
+        # the object has been in use (attribute look-ups included) and then had one dimension renamed in place:
+        # the new name now routes to the axis, the former name is an ordinary metadata name again
+        j = rng.randrange(len(dims))
+        try:
+            hasattr(o, 'units'), getattr(o, dims[j]), getattr(o, dims[0])
+        except Exception:
+            pass
+        formerdim, newdim = dims[j], 'lon9'
+        how = rng.choice(['set_axis', 'axis.name', 'dims'] + (['rename_axes'] if cls == 'Dataset' else []))
+        if how == 'set_axis':
+            o.set_axis(name=newdim, axis=formerdim)
+        elif how == 'axis.name':
+            o.axes[formerdim].name = newdim
+        elif how == 'dims':
+            o.dims = tuple(newdim if d == formerdim else d for d in o.dims)
+        else:
+            o.rename_axes({formerdim: newdim})
+        dims = [newdim if d == formerdim else d for d in dims]
+        ctx.outcomes['routing-after-inplace-rename:' + how] += 1
     if nk == 'public':
-        name = rng.choice([n for n in PUBLIC if not hasattr(C, n) and n not in dims])
+        name = formerdim if (formerdim and rng.random() < 0.6) else rng.choice([n for n in PUBLIC if not hasattr(C, n) and n not in dims])
     elif nk == 'underscore':
         name = rng.choice(UNDER)
     elif nk == 'member':
         name = rng.choice(members)
     else:
-        name = rng.choice(dims)
-    where = "%s name=%r (%s) value=%s" % (cls, name, nk, codec.short(v, 60))
+        name = 'lon9' if (formerdim and rng.random() < 0.6) else rng.choice(dims)
+    where = "%s name=%r (%s%s) value=%s" % (cls, name, nk, (", after %r was renamed 'lon9' in place" % formerdim) if formerdim else "", codec.short(v, 60))
     attrs0 = monitors.freeze(dict(o.attrs))
     ctx.outcomes['routing-steps'] += 1
 
